@@ -210,6 +210,12 @@ Theorem c20_channel_close_once : closes_justified chan_close_sites = true.
 Proof. vm_compute. reflexivity. Qed.
 Print Assumptions c20_channel_close_once.
 
+(* instance: every slice / map header of guarded memory that a function hands out (return, send, callback,
+   interface method) is fresh, handed over, or reviewed *)
+Theorem c20_escapes_justified : escapes_justified escape_sites = true.
+Proof. vm_compute. reflexivity. Qed.
+Print Assumptions c20_escapes_justified.
+
 (* ---- the hypotheses matter -------------------------------------------------- *)
 
 (* an inverted order (a then b, and b then a) is rejected by the check and does deadlock *)
